@@ -89,13 +89,20 @@ def run_tlc(module, cfg, workdir, workers=1, simulate=None, depth=None,
         e.update(env)
     t0 = time.time()
     try:
-        p = subprocess.run(cmd, cwd=os.path.dirname(modpath), env=e, stdout=subprocess.PIPE,
-                           stderr=subprocess.STDOUT, timeout=timeout)
-        out = p.stdout.decode("utf-8", "replace")
-        res.exit = p.returncode
-    except subprocess.TimeoutExpired as exc:
-        out = (exc.stdout or b"").decode("utf-8", "replace")
-        res.exit = -9
+        for attempt in range(4):
+            try:
+                p = subprocess.run(cmd, cwd=os.path.dirname(modpath), env=e, stdout=subprocess.PIPE,
+                                   stderr=subprocess.STDOUT, timeout=timeout)
+                out = p.stdout.decode("utf-8", "replace")
+                res.exit = p.returncode
+            except subprocess.TimeoutExpired as exc:
+                out = (exc.stdout or b"").decode("utf-8", "replace")
+                res.exit = -9
+            # the JVM itself could not start or was killed (memory pressure while other checks run):
+            # TLC never got to parse the spec - try again rather than report a machinery failure
+            if res.exit in (0, -9) or "Semantic processing of module" in out or "Error:" in out:
+                break
+            time.sleep(5 * (attempt + 1))
     finally:
         shutil.rmtree(meta, ignore_errors=True)
     res.wall = time.time() - t0
